@@ -883,7 +883,7 @@ def term(case, res):
             n = _rms_n(case)
             scaled = copy.deepcopy(res)
             for o in scaled['outs']:
-                f = _s0_times_n(o.get('s0f'), n)
+                f = _s0_times_n(o.get('s0f'), n, scale=abs(case['s0']) / n + sum(case['sizes']) / n)
                 o['ann'][0] = int(f) if f is not None and f.denominator == 1 else -99999
             t = f'check_rms_x {rep} {zlit(n)} {h} {s0} {sizes} {_got(scaled, r)}'
         elif st == 'rms':
@@ -1004,7 +1004,7 @@ def oracle(case, res):
     return None
 
 
-def _s0_times_n(s0f, n):
+def _s0_times_n(s0f, n, scale=0.0):
     """n times the emitted s0, as the model's integer (s0 in INPUT samples).  The code computes s0_in / n once and then
     adds window counts, all in floating point: a float within 16 ulp of j / n (j an integer) stands for j / n (as
     harness/C11.py _rate does for rates); any other float for itself"""
@@ -1013,7 +1013,9 @@ def _s0_times_n(s0f, n):
     f = Fraction(*s0f)
     x = float(f)
     j = round(f * n)
-    if abs(float(Fraction(j, n)) - x) <= 16 * float(np.spacing(abs(x))):
+    # the rounding errors are those of the LARGEST magnitude the running sum went through (|first s0| + the windows
+    # emitted so far), not of the possibly much smaller current value (-6.1 + 6 = -0.0999999999999996)
+    if abs(float(Fraction(j, n)) - x) <= 16 * float(np.spacing(max(abs(x), abs(scale), 1.0))):
         return Fraction(j)
     return f * n
 
